@@ -223,7 +223,7 @@ def lookup_attribute_facts(ctx, rid):
             expected="[k, v] for k, v in cls._metadata.map.items() if getattr(k, attribute) == key",
             found="comparison of getattr(k, attribute) with key not found")
     # the selection is total over the table: no additional filter hides an entry (or every key class passes it)
-    comps = [s for o in rets for s in subterms(o.value) if isinstance(s, App) and s.op == "comp:list" and len(s.args) == 3
+    comps = [s for o in rets for s in subterms(o.value) if isinstance(s, App) and s.op in ("comp:list", "comp:gen") and len(s.args) == 3
              and contains(s.args[1], lambda u: isinstance(u, App) and u.op == "attr:map")]
     selections = [list(c_.args[2].args) for c_ in comps[:1]] or in_loop[:1]
     if not selections:
@@ -331,8 +331,15 @@ def lookup_attribute_facts(ctx, rid):
 
     # unknown name is rejected: from_obj has a raise ValueError guarded by the failed lookup
     fi, outs = _outs(ctx, "SuitKeyValue.from_obj")
-    rej = [o for o in outs if o.kind == "raise" and any(
-        isinstance(c, App) and c.op == "not" and _has_call(c, "_get_method_and_name") for c in o.conds)]
+    def _lookup_failed(c):
+        # the lookup result is falsy / is None: `not r`, `r is None`, `r == None`, `not (r is not None)`
+        if not (isinstance(c, App) and _has_call(c, "_get_method_and_name")):
+            return False
+        if c.op == "not":
+            inner = c.args[0]
+            return not (isinstance(inner, App) and inner.op in ("is", "==") and Const(None) in inner.args)
+        return c.op in ("is", "==") and Const(None) in c.args
+    rej = [o for o in outs if o.kind == "raise" and any(_lookup_failed(c) for c in o.conds)]
     R.check(rid, bool(rej) and all(_exc_name(o) == "ValueError" for o in rej),
             "a name outside the node's own table is rejected with ValueError (closed key space)",
             node=fi.node, function=ctx.fq(fi), mod=fi.module,
